@@ -40,6 +40,9 @@ macro "st_tac" : tactic =>
 @[simp] theorem store_refreshPingreqRecv (c : C) : (refreshPingreqRecv c).s.store = c.s.store := by
   unfold refreshPingreqRecv; st_tac
 @[simp] theorem store_initConn (c : C) (b : Bool) : (initConn c b).s.store = c.s.store := rfl
+@[simp] theorem store_releasePacketId (c : C) (id : Nat) : (releasePacketId c id).s.store = c.s.store := by
+  refine releasePacketId_ind (Q := fun c' => c'.s.store = c.s.store) c id (store_releaseIfUsed c id) (fun h => h) (fun h => ?_)
+  rcases decSendCount_s_cases (dropWaits (releaseIfUsed c id) id) with e | e <;> rw [e] <;> exact h
 @[simp] theorem store_decSendCount (c : C) : (decSendCount c).s.store = c.s.store := by
   unfold decSendCount; st_tac
 @[simp] theorem store_releaseAll (l : List Nat) : ∀ c, (releaseAll c l).s.store = c.s.store := by
@@ -589,7 +592,7 @@ theorem sk_step (cfg : Cfg) (s : St) (op : Op) (hpub : okk .publish) (hrel : okk
   | setRespTimeout ms => exact g
   | acquire => exact g
   | register id => exact g
-  | release id => exact sk_congr g (store_releaseIfUsed _ id)
+  | release id => exact sk_congr g (store_releasePacketId _ id)
   | erase id => exact sk_eraseStoredPublish g id
   | restoreHandled ids => exact g
   | restorePackets ps => exact sk_restorePackets ps g (hr ps rfl)
